@@ -12,8 +12,8 @@ import (
 // components the goal does not mention, and they drown the instantiation engines.
 //
 // A quantified hypothesis is kept iff it mentions a heap component / ghost function of the goal that is not
-// ubiquitous (one that occurs in more than a quarter of the quantified hypotheses, like the length of the slice an
-// invariant ranges over, does not discriminate).
+// ubiquitous (one that occurs in more than a quarter of the quantified hypotheses, or in more than 16 of them, like the
+// length of the slice an invariant ranges over, does not discriminate).
 
 var symRe = regexp.MustCompile(`\|[^|]*\|`)
 var verRe = regexp.MustCompile(`(!app|!cpy)?@\d+$`)
@@ -26,10 +26,32 @@ func symBase(s string) string {
 // topConjuncts splits "(assert (and A B ...))" into its conjuncts (recursively); other shapes are returned as is.
 func topConjuncts(term string) []string {
 	term = strings.TrimSpace(term)
+	if strings.HasPrefix(term, "(=> ") {
+		// (=> A (and B C ..)) is split into (=> A B), (=> A C), .. so that the ground parts of a guarded conjunction
+		// (callee postconditions under a path condition) survive when its quantified parts are dropped
+		args := sexpArgs(term[len("(=> ") : len(term)-1])
+		if len(args) == 2 && strings.HasPrefix(args[1], "(and ") {
+			var out []string
+			for _, c := range topConjuncts(args[1]) {
+				out = append(out, "(=> "+args[0]+" "+c+")")
+			}
+			return out
+		}
+		return []string{term}
+	}
 	if !strings.HasPrefix(term, "(and ") {
 		return []string{term}
 	}
 	inner := term[len("(and ") : len(term)-1]
+	var out []string
+	for _, a := range sexpArgs(inner) {
+		out = append(out, topConjuncts(a)...)
+	}
+	return out
+}
+
+// sexpArgs splits a sequence of s-expressions / atoms (|quoted| symbols respected) at top level.
+func sexpArgs(inner string) []string {
 	var out []string
 	depth, start := 0, -1
 	inBar := false
@@ -41,7 +63,7 @@ func topConjuncts(term string) []string {
 				start = i
 			}
 			if !inBar && depth == 0 && start >= 0 {
-				out = append(out, topConjuncts(inner[start:i+1])...)
+				out = append(out, inner[start:i+1])
 				start = -1
 			}
 			continue
@@ -58,7 +80,7 @@ func topConjuncts(term string) []string {
 		case ')':
 			depth--
 			if depth == 0 && start >= 0 {
-				out = append(out, topConjuncts(inner[start:i+1])...)
+				out = append(out, inner[start:i+1])
 				start = -1
 			}
 		case ' ', '\n', '\t':
@@ -150,6 +172,9 @@ func sliceScript(script string) (string, bool) {
 	if limit < 8 {
 		limit = 8
 	}
+	if limit > 16 {
+		limit = 16
+	}
 	goal := basesOf(strings.Join(lines[marker:], "\n"))
 	rel := map[string]bool{}
 	for b := range goal {
@@ -162,7 +187,14 @@ func sliceScript(script string) (string, bool) {
 	}
 	dropped := 0
 	for _, h := range quant {
-		keep := false
+		// an axiom with an explicit trigger that is about ubiquitous symbols only (e.g. the definition of the
+		// element-index function) is kept
+		keep := strings.Contains(h.text, ":pattern")
+		for b := range h.bases {
+			if freq[b] <= limit {
+				keep = false
+			}
+		}
 		for b := range h.bases {
 			if rel[b] {
 				keep = true
